@@ -1,4 +1,4 @@
-use super::{Node, RustFieldType};
+use super::{Node, RustFieldType, as_string_literal_content};
 use crate::{error::WriterResult, reader::WriteXml};
 use std::io;
 
@@ -55,7 +55,7 @@ where
         if let Some(enumeration) = &self.enumeration {
             writeln!(writer, "   enumeration: Some(vec![")?;
             for value in enumeration {
-                writeln!(writer, "      \"{value}\".to_string(),")?;
+                writeln!(writer, "      \"{}\".to_string(),", as_string_literal_content(value))?;
             }
             writeln!(writer, "   ]),")?;
         }
